@@ -1,10 +1,116 @@
-import JP.Driver
-import JP.Impl.Den
+import JP.Lemmas.NoPanicApply
 
-/-! # Property C04 — theorems (see DESIGN.md §6) -/
+/-!
+# C04: no exported entry point panics
 
-namespace JP
-namespace C04
+The implementation model has an explicit `panic` outcome at every dereference, index and
+slice expression the Go code executes without a guard.  The theorems say that none of
+them is reachable from an exported entry point.
 
-end C04
-end JP
+The invariant behind `apply_no_panic` (`JP/Lemmas/NoPanic*.lean`): the root container is
+always container-shaped (`isCon`: a parsed object or array, or one of the two nil roots),
+and every parsed node reachable from it (and from the root's `self` node) satisfies `NP`:
+the map of a parsed object has distinct names and all of them occur in its order list
+`keys` (`keys` may hold repeats and stale names: documents with duplicate member names
+are in scope).  Every operation, `ensurePathExists` included, preserves it; walks call
+container methods only on container-shaped nodes; `replace` calls `set` only after a
+successful `get`; `add ""`/`replace ""` always have a value because `DecodePatch`
+validates that (`OpValid`).
+-/
+
+namespace JP.C04
+open JP.Impl
+
+theorem decodePatch_no_panic (bs : Bytes) : Impl.decodePatch bs ≠ .panic :=
+  decodePatch_ne_panic bs
+
+theorem mergePatch_no_panic (d p : Bytes) : Impl.mergePatch d p ≠ .panic :=
+  doMergePatch_ne_panic false d p
+
+theorem mergeMergePatches_no_panic (a b : Bytes) : Impl.mergeMergePatches a b ≠ .panic :=
+  doMergePatch_ne_panic true a b
+
+theorem createMergePatch_no_panic (a b : Bytes) : Impl.createMergePatch a b ≠ .panic :=
+  createMergePatch_ne_panic a b
+
+/-- `Equal` returns a Boolean in the model: it has no panic outcome at all -/
+theorem equal_total (a b : Bytes) : Impl.equal a b = true ∨ Impl.equal a b = false := by
+  cases Impl.equal a b <;> simp
+
+/-- staging: without `EnsurePathExistsOnAdd` -/
+theorem apply_no_panic_noensure (o : Impl.Opts) (_hens : o.ensure = false) (indent doc patch : Bytes)
+    (ops : List Impl.Op) (h : Impl.decodePatch patch = .ok ops) :
+    Impl.applyBytes o indent doc ops ≠ .panic :=
+  applyBytes_ne_panic o indent doc ops (decodePatch_valid h)
+
+/-- the main one: whatever the document bytes, the decoded patch and the options -/
+theorem apply_no_panic (o : Impl.Opts) (indent doc patch : Bytes) (ops : List Impl.Op)
+    (h : Impl.decodePatch patch = .ok ops) : Impl.applyBytes o indent doc ops ≠ .panic :=
+  applyBytes_ne_panic o indent doc ops (decodePatch_valid h)
+
+/-- the engine itself: from any root that satisfies the invariant, a validated patch never
+panics and leaves a root that satisfies the invariant -/
+theorem applyOps_no_panic (o : Impl.Opts) (r : Impl.Root) (acc : Int) (ops : List Impl.Op)
+    (hr : Impl.RootOK r) (hv : ∀ op ∈ ops, Impl.OpValid op) :
+    Impl.applyOps o r acc ops ≠ .panic ∧ ∀ r', Impl.applyOps o r acc ops = .ok r' → Impl.RootOK r' := by
+  have := applyOps_ok o ops r acc hr hv
+  constructor
+  · intro h; rw [h] at this; exact this
+  · intro r' h; rw [h] at this; exact this
+
+/-- the validation is needed: an `add ""` without a value would panic (the model's image of
+the nil dereference `(*val.raw)[0]`), and `DecodePatch` never produces one -/
+example : Impl.opAdd {} { con := .doc [] [], self := .nil } { kind := ascii "add", path := [] } = .panic := rfl
+
+/-! ### the hypotheses are satisfiable -/
+
+section Examples
+
+theorem exists_ok_of {α} {x : Outcome α} {p : α → Bool}
+    (h : (match x with | .ok a => p a | _ => false) = true) : ∃ a, x = .ok a ∧ p a = true := by
+  cases x with
+  | ok a => exact ⟨a, rfl, h⟩
+  | err e => simp at h
+  | panic => simp at h
+
+/-- a patch that `DecodePatch` accepts: add at the end of an array, remove by index, add
+below a path that does not exist yet -/
+def exPatch : Bytes := ascii
+  "[{\"op\":\"add\",\"path\":\"/a/-\",\"value\":1},{\"op\":\"remove\",\"path\":\"/a/0\"},{\"op\":\"add\",\"path\":\"/x/y/2\",\"value\":null}]"
+/-- a document with a duplicate member name (in scope for this property) -/
+def exDoc : Bytes := ascii "{\"a\":[5],\"a\":[6,7]}"
+
+/-- what the example run is checked against -/
+def exCheck (ops : List Op) : Bool :=
+  ops.length == 3 &&
+  (match Impl.applyBytes { ensure := true } [] exDoc ops with
+   | .ok out => out == ascii "{\"a\":[7,1],\"a\":[7,1],\"x\":{\"y\":[null,null,null]}}"
+   | _ => false) &&
+  (match Impl.applyBytes {} [] exDoc ops with
+   | .err .missing => true
+   | _ => false)
+
+/-- the hypothesis of `apply_no_panic` holds for `exPatch`; with `EnsurePathExistsOnAdd`
+the run succeeds on `exDoc`, without it the last operation fails (an error, not a panic) -/
+example : ∃ ops, Impl.decodePatch exPatch = .ok ops ∧ exCheck ops = true :=
+  exists_ok_of (by decide +kernel)
+
+/-- the merge family on concrete inputs (these theorems have no hypotheses) -/
+example : (match Impl.mergePatch (ascii "{\"a\":1,\"b\":{\"c\":2}}") (ascii "{\"b\":{\"c\":null},\"d\":[1]}") with
+    | .ok out => out == ascii "{\"a\":1,\"b\":{},\"d\":[1]}" | _ => false) = true := by decide +kernel
+example : (match Impl.createMergePatch (ascii "{\"a\":1,\"b\":2}") (ascii "{\"a\":1,\"b\":3}") with
+    | .ok out => out == ascii "{\"b\":3}" | _ => false) = true := by decide +kernel
+example : (match Impl.createMergePatch (ascii "[1]") (ascii "{}") with
+    | .err .badMergeTypes => true | _ => false) = true := by decide +kernel
+
+end Examples
+
+end JP.C04
+
+-- #print axioms JP.C04.decodePatch_no_panic
+-- #print axioms JP.C04.mergePatch_no_panic
+-- #print axioms JP.C04.mergeMergePatches_no_panic
+-- #print axioms JP.C04.createMergePatch_no_panic
+-- #print axioms JP.C04.apply_no_panic_noensure
+-- #print axioms JP.C04.apply_no_panic
+-- #print axioms JP.C04.applyOps_no_panic
